@@ -25,6 +25,7 @@ type ScopeWS struct {
 	Loose      bool               // arbitrary files (repository testdata), not generator output
 	DeclMember bool               // Loose, and every member chain in the files is declared down to its last key
 	Late       string             // a file that is created (watched-file event) only after the server has loaded the rest; "" = none
+	LazyOpen   bool               // the client opens a document only when it first works in it (instead of all documents at the start)
 	Roots      []string           // workspace folders (sibling directories under the scratch root; the first is the main folder); nil = one folder
 }
 
@@ -81,6 +82,18 @@ func (ws *ScopeWS) Reroot(roots []string) {
 	ws.ByRel = map[string]*SFile{}
 	for i, f := range ws.Files {
 		f.Rel = roots[i%len(roots)] + "/" + f.Rel
+		ws.ByRel[f.Rel] = f
+	}
+}
+
+// Spread moves the files into directories of one workspace folder whose last path elements are equal (ui/src, net/src,
+// src/src): sub-directories with the same base name under different parents, and one nested in a directory of its own name.
+func (ws *ScopeWS) Spread() {
+	dirs := []string{"ui", "net", "src"}
+	ws.LazyOpen = true
+	ws.ByRel = map[string]*SFile{}
+	for i, f := range ws.Files {
+		f.Rel = dirs[i%len(dirs)] + "/" + f.Rel
 		ws.ByRel[f.Rel] = f
 	}
 }
